@@ -139,6 +139,20 @@ Proof.
   destruct (_ && _); [discriminate|]. intro H. injection H as <-. reflexivity.
 Qed.
 
+(* any sequence of posts of the kinds the model uses: the clause list is produced and a user
+   assignment extends to a model of it exactly when every posted constraint holds *)
+Theorem good_posts_exact (m0 : memory) ps : mem_wf m0 -> (forall p, In p ps -> good p) ->
+  exists m s sts, run_posts m0 empty_mgr ps = Some (m, s, sts) /\
+                  forall a, ext a (clauses s) <-> posts_hold a ps.
+Proof.
+  intros W G.
+  assert (Ok : Forall post_ok ps) by (apply Forall_forall; intros p Hp; exact (proj1 (G p Hp))).
+  assert (Pl : Forall plain ps) by (apply Forall_forall; intros p Hp; exact (proj2 (G p Hp))).
+  destruct (post_exact m0 ps W Ok) as (m & s & sts & Er & _ & Hx).
+  exists m, s, sts. split; [exact Er|].
+  intro a. rewrite (Hx a). exact (all_accepted ps m0 empty_mgr m s sts Pl Er a).
+Qed.
+
 (* the generated formula and the posted constraints *)
 Theorem encode_exact mode inp k factor ratio bound (m0 : memory) ps : mem_wf m0 ->
   solve_posts mode inp k factor ratio bound = Some ps ->
@@ -151,12 +165,8 @@ Proof.
     - apply (shape_posts_good mode inp k). unfold shape_posts. apply in_or_app. left. exact Hp.
     - destruct Hp as [<-|Hp]; [apply obj_good|].
       apply (shape_posts_good mode inp k). unfold shape_posts. apply in_or_app. right. exact Hp. }
-  assert (Ok : Forall post_ok ps) by (apply Forall_forall; intros p Hp; exact (proj1 (G p Hp))).
-  assert (Pl : Forall plain ps) by (apply Forall_forall; intros p Hp; exact (proj2 (G p Hp))).
-  destruct (post_exact m0 ps W Ok) as (m & s & sts & Er & _ & Hx).
-  exists m, s. split.
-  - unfold encode. rewrite E, Er. reflexivity.
-  - intro a. rewrite (Hx a). exact (all_accepted ps m0 empty_mgr m s sts Pl Er a).
+  destruct (good_posts_exact m0 ps W G) as (m & s & sts & Er & Hx).
+  exists m, s. split; [|exact Hx]. unfold encode. rewrite E, Er. reflexivity.
 Qed.
 
 (* ---- the objective ---- *)
